@@ -68,6 +68,8 @@ class C19(scen.WorldProp):
                 "Wheatley.C19.return_request_survives_inner_wait",
                 "Wheatley.C19.return_request_ends_hold_up",
                 "Wheatley.C19.finishTick_leaves_wait",
+                "Wheatley.C19.look_to_is_activity",
+                "Wheatley.C19.look_to_is_activity_atomic",
                 "Wheatley.C19.exit_law",
                 "Wheatley.C19.inactivity_is_300s"]
     quick_budget_s = 150
